@@ -43,6 +43,19 @@ func derReplace(b []byte, tlvs []rder.TLV, idx int, tag byte, content []byte) []
 	return append(append(append([]byte(nil), b[:cS]...), cur...), b[cE:]...)
 }
 
+// DERReplaceWhere re-encodes valid with the first TLV that pick accepts replaced by (tag, content(old content)), all
+// enclosing lengths adjusted (OCTET/BIT STRING wrappers around nested DER included). ok=false: no TLV matched.
+func DERReplaceWhere(valid []byte, pick func(t rder.TLV, content []byte) bool, tag byte, content func(old []byte) []byte) (out []byte, ok bool) {
+	tlvs := rder.Walk(valid)
+	for i, t := range tlvs {
+		c := valid[t.Start+t.HdrLen : t.Start+t.HdrLen+t.Len]
+		if pick(t, c) {
+			return derReplace(valid, tlvs, i, tag, content(c)), true
+		}
+	}
+	return nil, false
+}
+
 // DERConsistent enumerates the mutations of every TLV of valid (at most maxTLV of them).
 func DERConsistent(valid []byte, maxTLV int) []DERMutation {
 	tlvs := rder.Walk(valid)
